@@ -132,6 +132,59 @@ def Err.map {E' : Type} (f : E → E') : Err E → Err E'
   | .failedChild none => .failedChild none
   | .failedChild (some c) => .failedChild (some (c.map f))
 
+
+/-! ### small pieces of the exception path that the tree machine abstracts from
+
+Each has a switch: `pinned` = the code as found, `repaired` = with the proposed fix. -/
+
+/-- (1) the composite's error book-keeping for ONE child over a run: the child is asked to run several
+times (hand-wired flows trigger a node more than once); `ran e` = it started and its run raised `e`,
+`refused r` = it did not start (`ReadinessError r`: not ready, still running, already failed) -/
+inductive Ask (E : Type) where
+  | ran (e : E)
+  | refused (r : E)
+
+/-- pinned: `errors[key] = e` — the last one wins -/
+def collectPinned : Option E → Ask E → Option E
+  | _, .ran e => some e
+  | _, .refused r => some r
+
+/-- repaired: a refusal never displaces what is recorded; the error of an actual run displaces anything -/
+def collectRepaired : Option E → Ask E → Option E
+  | _, .ran e => some e
+  | some x, .refused _ => some x
+  | none, .refused r => some r
+
+def Ask.isRefusal : Ask E → Bool
+  | .refused _ => true
+  | .ran _ => false
+
+/-- (2) the signals a finishing `If` node emits: `failed`/`ran`, plus the branch of its truth output — which, when
+the run failed, is the value an EARLIER run left there -/
+inductive Sig | ran | failed | branch (b : Bool)
+  deriving DecidableEq, Repr
+
+def ifEmits (repaired : Bool) (failed : Bool) (truth : Option Bool) : List Sig :=
+  let base := if failed then [Sig.failed] else [Sig.ran]
+  match truth with
+  | none => base
+  | some b => if repaired && failed then base else base ++ [Sig.branch b]
+
+/-- (3) which raised objects the two exception paths of `Runnable` process as a failure of the run: the local path
+(`_run`) names `Exception` and `KeyboardInterrupt`, the done-callback path (`_finish_run`) only `Exception` -/
+inductive Kind | exception | keyboardInterrupt | otherBase
+  deriving DecidableEq, Repr
+
+def handledLocally : Kind → Bool
+  | .exception => true
+  | .keyboardInterrupt => true
+  | .otherBase => false
+
+def handledInCallback (repaired : Bool) : Kind → Bool
+  | .exception => true
+  | .keyboardInterrupt => repaired
+  | .otherBase => false
+
 /-! ### finite presentation (driver, witnesses) -/
 
 /-- children given as an association list; everybody else is a function node -/
